@@ -222,7 +222,6 @@ impl DomainRouter {
     ) -> Result<Self, ()> {
         let (domain2components, root_fallback_id) = {
             let mut domain2components: BTreeMap<_, Vec<_>> = Default::default();
-            let mut root_fallback_id = None;
             for (id, component) in db.iter() {
                 match component {
                     UserComponent::RequestHandler { router_key, .. } => {
@@ -244,15 +243,17 @@ impl DomainRouter {
                                     domain2components.get_mut(domain_guard).unwrap().push(id);
                                 }
                             }
-                            None => {
-                                root_fallback_id = Some(id);
-                            }
+                            // Not tied to any domain.
+                            None => {}
                         }
                     }
                     _ => {}
                 }
             }
-            let root_fallback_id = root_fallback_id.expect("There must always be a top-level fallback, either user-provided or framework-provided");
+            // If no domain matches, we use the fallback of the top-level blueprint
+            // (either user-provided or framework-provided), rather than the fallback of
+            // whatever domain-less nested blueprint happens to be processed last.
+            let root_fallback_id = scope_based_fallback_tree.root().fallback_id;
             (domain2components, root_fallback_id)
         };
 
